@@ -400,6 +400,13 @@ func (s *Store) lookupSecretInternal(ctx context.Context, name string) (Secret, 
 
 			s.active.Lock()
 			defer s.active.Unlock()
+			if _, ok := s.active.m[name]; ok {
+				// Another lookup installed this secret while our request was in
+				// flight (we found it unknown, but reached the single-flight only
+				// after that lookup had finished). Keep that entry: polls have
+				// been keeping it current, and our answer may be older.
+				return s.secretLocked(name), nil
+			}
 			s.active.m[name] = &cachedSecret{Secret: sv, LastAccess: s.timeNow().Unix()}
 			if err := s.flushCacheLocked(); err != nil {
 				s.logf("WARNING: error flushing cache: %v", err)
